@@ -4,6 +4,8 @@ from props.queue_common import *
 
 PROGS = [';push1,push2;pop,pop', ';push1,push2,push3;pop', ';pop,pop;push1,push2,push3', 'push1;push2,pop;pop,push3', ';push1,pop;push2,pop', 'push1,push2;pop,pop;pop,push3',
          ';push1,push2,push3;pop,pop,pop', ';push1,push2;push3,pop;pop,pop', 'push1;opop,push2;opop,opop', ';push1,push2;push3,push4;pop,pop']
+DIRECTED = 'push1;push2,sig2;pop,pop,sig1,wai2;wai1,push3'
+DIRECTED2 = 'push1,push2;push3,sig2;pop,pop,pop,sig1,wai2;wai1,push4'      # the same with two entries per node
 QCFG = ['ms', 'ram10', 'ram21', 'ram31', 'ram40', 'nik10', 'nik21', 'nik41']
 
 
@@ -27,12 +29,24 @@ def run(ctx):
     run_queues(ctx, jobs, pb=2 if q else 3, max_exec=400 if q else 20000, per_driver={'queue_nik': 1500, 'queue_ram': 700} if q else None)
     if not q:
         run_queues(ctx, jobs, pb=5, max_exec=0, mode='random', runs=600, tagx='r')
+    # directed three-role scenario (harness-level waits): a push has linked a new node but not yet swung _tail, a popper drains the old
+    # node, moves _head past it and retires it, a third thread pushes (acquires _tail) and the popper's thread exits (its exit scan reclaims).
+    # Found by the Ramalhete impl spec (HelpTail); on the real code it needs two preemptions at the right places among ~150 steps.
+    djobs = ['%s/%s/I;%s' % (qc, r, DIRECTED2 if qc in ('ram21', 'nik21') else DIRECTED) for qc in ('ram10', 'nik10', 'ms', 'ram21', 'nik21') for r in (('he3', 'stamp') if q else RECL)]
+    run_queues(ctx, djobs, pb=2, max_exec=12000 if q else 80000, tagx='d')
     # S: the impl spec NikolaevQueue is bound to the code at the grain of single atomic accesses (ring words match exactly)
     from props.c03 import step_bind
     nq = queue_models.nq_consts(Progs='<-ProgStep', SetupOps=0, MaxNodes=7)
     keep = lambda r: ('nikolaev_queue' in r.get('ctx', '') or 'nikolaev_scq' in r.get('ctx', '')) and 'nikolaev_scq::nikolaev_scq' not in r.get('ctx', '')
     for rc in (['nebr0'] if q else ['nebr0', 'ebr0', 'debra0', 'qsbr', 'stamp']):
         step_bind(ctx, 'NikolaevQueue', 'queue_nik', ['nik10/%s/I;;push1,push2,pop;pop,push3' % rc], nq, pb=2, max_exec=400 if q else 20000, keep=keep)
+    # ... and so is Ramalhete (index words and entries match exactly; raw-pointer elements from a named array)
+    rq = queue_models.rq_consts(Progs='<-ProgStep', NNodes=7)
+    keepr = lambda r: r.get('fn', '').startswith('ramalhete_queue::') and 'node::' not in r.get('fn', '')
+    for rc in (['nebr0'] if q else ['nebr0', 'hp3', 'he3', 'stamp']):
+        step_bind(ctx, 'Ramalhete', 'queue_ram', ['ram10/%s/P;;push1,push2,pop;pop,push3' % rc], rq, pb=2, max_exec=150 if q else 5000, keep=keepr)
+    if not q:
+        step_bind(ctx, 'Ramalhete', 'queue_ram', ['ram21/nebr0/P;;push1,push2,pop;pop,push3'], dict(rq, EPN=2, PopRetries=1), pb=2, max_exec=5000, keep=keepr)
     for r in ctx.tv[:3]:
         ctx.samples.append({'driver': r['driver'], 'history': canonical_sample(execution_lines(r['trace'], 2), 60)})
     return finish(ctx,
